@@ -327,8 +327,32 @@ def oracle_case(xt, spec, pool, fail):
             pass
 
 
+def tuple_opacity_probe(ctx, xt):
+    """tuples are opaque for extraction AND for refilling: tensors inside a tuple are neither listed nor replaced, and the slots
+    after the tuple receive the tensors supplied for them (seeded defect C20/4: extraction started to look into tuples)"""
+    t = [torch.tensor([float(i), float(i) + 0.5]) for i in range(4)]
+    obj = {"a": [t[0], (t[1], t[2]), t[3]], "b": 3}
+    pk = xt.Packer(obj)
+    lst = pk.get_param_tensor_list(unique=False)
+    ctx.count(("tuple-opacity",), nontrivial=True)
+    if [id(x) for x in lst] != [id(t[0]), id(t[3])]:
+        ctx.fail("oracle", "packer:tuple-opacity:extract", {"structure": "{a: [T0, (T1, T2), T3], b: 3}"}, len(lst), "exactly [T0, T3]")
+        return
+    n0, n3 = torch.zeros(2) + 10, torch.zeros(2) + 30
+    new = pk.construct_from_tensor_list([n0, n3], unique=False)
+    ok = new["a"][0] is n0 and new["a"][2] is n3 and isinstance(new["a"][1], tuple) and len(new["a"][1]) == 2 \
+        and torch.equal(new["a"][1][0], t[1]) and torch.equal(new["a"][1][1], t[2]) and new["b"] == 3
+    flat = pk.get_param_tensor(unique=False)
+    back = pk.construct_from_tensor(flat * 2, unique=False)
+    ok2 = flat.numel() == 4 and torch.equal(back["a"][0], t[0] * 2) and torch.equal(back["a"][2], t[3] * 2) and torch.equal(back["a"][1][0], t[1])
+    if not ok or not ok2:
+        ctx.fail("oracle", "packer:tuple-opacity:construct", {"structure": "{a: [T0, (T1, T2), T3], b: 3}"},
+                 {"list_interface_ok": bool(ok), "flat_interface_ok": bool(ok2)}, "slots 0 and 2 of the list hold the supplied tensors, the tuple is preserved")
+
+
 def check(ctx):
     import xitorch as xt
+    tuple_opacity_probe(ctx, xt)
     rng = ctx.rng
     ncases = ctx.n(400, 3000)
     cases, meta = [], []
